@@ -28,6 +28,8 @@ CORPORA = {
                    family="config", trace="ConfigTrace.tla", tracecfg="ConfigTrace.cfg"),
     "restbind": dict(gen="MCRestBind.tla", cfg={"quick": "restbind_quick.cfg", "thorough": "restbind_thorough.cfg"},
                      family="restbind", trace="RestBindTrace.tla", tracecfg="RestBindTrace.cfg"),
+    "stream_get": dict(gen="MCStream.tla", cfg={"quick": "stream_get_quick.cfg", "thorough": "stream_get_thorough.cfg"},
+                       family="stream", trace="StreamTrace.tla", tracecfg="StreamTrace.cfg"),
     "stream_headers": dict(gen="MCStream.tla", cfg={"quick": "stream_headers_quick.cfg", "thorough": "stream_headers_thorough.cfg"},
                            family="stream", trace="StreamTrace.tla", tracecfg="StreamTrace.cfg"),
 }
@@ -50,6 +52,7 @@ PROPS = {
     "C12": dict(corpora=["timeout"], prefix="C12."),
     "C13": dict(corpora=["stream_matrix", "stream_reject"], prefix="C13."),
     "C17": dict(corpora=["config"], prefix="C17."),
+    "C19": dict(corpora=["stream_get", "stream_matrix"], prefix="C19."),
     "C18": dict(corpora=["stream_reject", "stream_matrix", "stream_faults"], prefix="C18."),
 }
 
